@@ -1581,7 +1581,8 @@ fn reload_scenario(rng: &mut Rng, base: &mut Base, t: &Tables, cfg: &WorldCfg, o
 // ---------------------------------------------------------------------------------------------
 
 /// Largest millisecond value `Duration::from_millis` can take without overflowing `i64` nanoseconds.
-/// Larger values are the recorded finding C18-config-duration-overflow; the generator stays below.
+/// Larger values were the finding C18-config-duration-overflow (fixed in c8e9f82: the conversions saturate);
+/// the generator now crosses the bound as well.
 const MAX_SAFE_MILLIS: u64 = 9_223_372_036_854;
 
 fn int_boundaries() -> Vec<J> {
@@ -1729,7 +1730,7 @@ fn config_boundary(key: &str, rng: &mut Rng) -> (J, bool) {
     let v = match key {
         "watchdog.timeout_ms" | "retain.save_interval_ms" => rng
             .pick(&[
-                json!(1), json!(0), json!(-1), json!(4294967296u64), json!(MAX_SAFE_MILLIS), json!(1.0), json!(1.5),
+                json!(1), json!(0), json!(-1), json!(4294967296u64), json!(MAX_SAFE_MILLIS), json!(MAX_SAFE_MILLIS + 1), json!(i64::MAX), json!(1.0), json!(1.5),
                 json!("1"), J::Null, json!([1]), json!(i64::MIN), json!(u64::MAX), json!(9223372036854775808u64),
             ])
             .clone(),
